@@ -1485,6 +1485,27 @@ pub fn generate(name: &str, count: usize, rng: &mut Rng, sink: &mut dyn FnMut(Se
                 sink(Session { sid: format!("v2ctrl-{}", i), tag: json!({"g": "v2ctrl"}), chunks: vec![bytes], huge: None, consume: false, inplace: false, prelude: Vec::new() });
             }
         }
+        // the grid of command x family x transport x length relation: every version/command byte a
+        // peer may plausibly send, every family 0..4 with every transport 0..3, and a declared length
+        // of 0 / 1 / one below / exactly / above the family's block size - with all of it present
+        "v2grid" => {
+            let mut cases: Vec<(u8, u8, usize)> = Vec::new();
+            for vc in [0x20u8, 0x21, 0x22, 0x11] {
+                for fam in 0..=4u8 {
+                    for proto in 0..=3u8 {
+                        let need = family_size(fam);
+                        let mut lens = vec![0usize, 1, need + 1, need + 7];
+                        if need > 0 { lens.push(need - 1); lens.push(need); }
+                        for l in lens { cases.push((vc, (fam << 4) | proto, l)); }
+                    }
+                }
+            }
+            for (i, (vc, afp, l)) in cases.into_iter().enumerate().take(count) {
+                let body = distinct_body(l, rng);
+                let bytes = v2_header(vc, afp, l as u16, &body);
+                sink(Session { sid: format!("v2grid-{}", i), tag: json!({"g": "v2grid"}), chunks: vec![bytes], huge: None, consume: false, inplace: false, prelude: Vec::new() });
+            }
+        }
         // declared length vs bytes present
         "v2len" => {
             let mut lens: Vec<usize> = (0..=300).collect();
